@@ -91,6 +91,9 @@ def _c19_regen(repo=None):
 
         def _back():
             try:
+                import fcntl
+                _lk = open(os.path.join(root, "build", "regen-C19.lock"), "w")
+                fcntl.flock(_lk, fcntl.LOCK_EX)   # not while another run is between regeneration and coqc
                 subprocess.run([os.path.join(root, "harness", "effects", "regen.sh"), "/repo"], timeout=600,
                                env=dict(os.environ, VERIF_REPO="/repo"), stdout=subprocess.DEVNULL, stderr=subprocess.DEVNULL)
             except Exception:
